@@ -619,13 +619,19 @@ func checkEventLevels(senderLevel int64, oldPowerLevels, newPowerLevels PowerLev
 	// for sending the event with and without a "state_key". But if there is no entry
 	// for "my.custom.type it will use the state default when sent with a "state_key"
 	// and will use the event default when sent without.
-	const (
-		isStateEvent = false
-	)
+	// Note that this compares the entries of the events map themselves: EventLevel() cannot
+	// be used here because it special cases m.room.third_party_invite to return the invite
+	// level, which would hide any change made to that entry of the map.
+	eventsEntry := func(c *PowerLevelContent, eventType string) int64 {
+		if level, ok := c.Events[eventType]; ok {
+			return level
+		}
+		return c.EventsDefault
+	}
 	for eventType := range newPowerLevels.Events {
 		levelChecks = append(levelChecks, levelPair{
-			oldPowerLevels.EventLevel(eventType, isStateEvent),
-			newPowerLevels.EventLevel(eventType, isStateEvent),
+			eventsEntry(&oldPowerLevels, eventType),
+			eventsEntry(&newPowerLevels, eventType),
 		})
 	}
 
@@ -634,8 +640,8 @@ func checkEventLevels(senderLevel int64, oldPowerLevels, newPowerLevels PowerLev
 	// the new levels. But it doesn't hurt to run the checks twice for the same level.
 	for eventType := range oldPowerLevels.Events {
 		levelChecks = append(levelChecks, levelPair{
-			oldPowerLevels.EventLevel(eventType, isStateEvent),
-			newPowerLevels.EventLevel(eventType, isStateEvent),
+			eventsEntry(&oldPowerLevels, eventType),
+			eventsEntry(&newPowerLevels, eventType),
 		})
 	}
 
